@@ -258,13 +258,123 @@ LOSSY = {("u64", "i64"), ("i64", "u64"), ("u64", "f64"), ("i64", "f64"), ("u64",
          ("u8", "i8"), ("u16", "u8"), ("f64", "f32"), ("u64", "f32"), ("i64", "f32")}
 
 
+def _guarded_cast(fn, bi, rv, defs, idom):
+    """A narrowing or sign-changing integer cast that keeps the value because a dominating test bounds the
+    operand: `x as u64` on the edge where `x >= 0` holds, `x as u8` where `x <= 255` / `x < 256` holds; or the
+    operand's upper bound is known to fit (a loop counter below a constant, a masked or shifted value)."""
+    from .. import cfg, panics
+    frm, to = rv["from"], rv["to"]
+    INT = panics.UMAX
+    op = rv["op"]
+    if op.get("c") not in ("copy", "move") or op["pl"]["p"]:
+        return None
+
+    def root(o):
+        for _ in range(6):
+            if o.get("c") not in ("copy", "move") or o["pl"]["p"]:
+                return None
+            ds = defs.get(o["pl"]["l"], [])
+            if len(ds) == 1 and ds[0][1] != "term" and ds[0][2]["k"] == "use" and ds[0][2]["op"].get("c") in ("copy", "move"):
+                o = ds[0][2]["op"]
+                continue
+            return o["pl"]["l"]
+        return None
+    x = root(op)
+    if x is None:
+        return None
+    to_max = {"u8": 255, "u16": 65535, "u32": (1 << 32) - 1, "u64": (1 << 64) - 1, "usize": (1 << 64) - 1,
+              "i8": 127, "i16": 32767, "i32": (1 << 31) - 1, "i64": (1 << 63) - 1, "isize": (1 << 63) - 1}.get(to)
+    signed_from = frm.startswith("i")
+    need_nonneg = signed_from and not to.startswith("i")
+    from_bits = {"8": 8, "16": 16, "32": 32, "64": 64, "size": 64}.get(frm[1:], 64)
+    to_bits = {"8": 8, "16": 16, "32": 32, "64": 64, "size": 64}.get(to[1:], 64)
+    need_upper = to_max is not None and (from_bits > to_bits or (not signed_from and to.startswith("i") and from_bits >= to_bits))
+    if to_max is None:
+        return None
+    have_nonneg = not need_nonneg
+    have_upper = not need_upper
+    why = []
+    for si, b in enumerate(fn.blocks):
+        t = b["term"]
+        if t["k"] != "switch" or b.get("cleanup") or t.get("ty") != "bool":
+            continue
+        sop = t["op"]
+        if sop.get("c") not in ("copy", "move") or sop["pl"]["p"]:
+            continue
+        ds = [d for d in defs.get(sop["pl"]["l"], []) if d[0] == si and d[1] != "term"]
+        if len(ds) != 1 or ds[0][2]["k"] != "bin" or ds[0][2]["op"] not in ("Lt", "Le", "Gt", "Ge"):
+            continue
+        cmpv = ds[0][2]
+        a, c2 = cmpv["a"], cmpv["b"]
+        opn = cmpv["op"]
+        k = common.const_int(c2)
+        if k is None or root(a) != x:
+            k2 = common.const_int(a)
+            if k2 is None or root(c2) != x:
+                continue
+            # const OP x  ==  x OP' const
+            k, opn = k2, {"Lt": "Gt", "Le": "Ge", "Gt": "Lt", "Ge": "Le"}[opn]
+        true_t = false_t = t["otherwise"]
+        for v, tg in t["targets"]:
+            if v == 1:
+                true_t = tg
+            if v == 0:
+                false_t = tg
+        if true_t == false_t:
+            continue
+        for edge, holds in ((true_t, True), (false_t, False)):
+            if not (cfg.dominates(idom, edge, bi) and all(p == si for p in fn.pred_map()[edge])):
+                continue
+            rel = opn if holds else {"Lt": "Ge", "Le": "Gt", "Gt": "Le", "Ge": "Lt"}[opn]
+            if rel == "Ge" and k >= 0 or rel == "Gt" and k >= -1:
+                have_nonneg = True
+                why.append("x %s %d" % ({"Ge": ">=", "Gt": ">"}[rel], k))
+            if rel == "Le" and k <= to_max or rel == "Lt" and k <= to_max + 1:
+                have_upper = True
+                why.append("x %s %d" % ({"Le": "<=", "Lt": "<"}[rel], k))
+    if not have_upper and not signed_from:
+        ub = panics.upper_bound(fn, defs, op, 0)
+        if ub is not None and ub <= to_max:
+            have_upper = True
+            why.append("x <= %d" % ub)
+    if have_nonneg and have_upper and len(defs.get(x, [])) <= 1:
+        return ", ".join(why) or "fits"
+    return None
+
+
+def _runtime_unreachable(crate):
+    """Private free functions nobody calls at run time (const fn helpers of static / const initialisers)."""
+    called = set()
+    for f in crate.fns:
+        for _, t in f.calls():
+            c = t["callee"]
+            for k in ("path", "resolved"):
+                if c.get(k):
+                    called.add(c[k])
+        for b in f.blocks:
+            for st in b["stmts"]:
+                if st["k"] == "assign":
+                    js = st["rv"]
+                    for key in ("op", "a", "b"):
+                        o = js.get(key)
+                        if isinstance(o, dict) and o.get("fn"):
+                            called.add(o["fn"])
+    return {f.path for f in crate.fns if f.kind == "fn" and not f.is_pub and not f.impl_trait and f.path not in called}
+
+
 def casts(r, crate):
     from ..report import Pool
+    from .. import cfg
     pool = Pool(load_table("casts.json"), getattr(crate, "config", "default"))
     n = 0
+    dead = _runtime_unreachable(crate)
     for fn in crate.fns:
         if not common.in_file(fn, "lexpr/src/parse/mod.rs", "lexpr/src/number.rs"):
             continue
+        if fn.path in dead or fn.owner in dead:
+            r.note("%s is not called at run time (initialiser helper): its casts are evaluated by the compiler" % fn.path)
+            continue
+        defs = idom = None
         for bi, b in enumerate(fn.blocks):
             if b.get("cleanup"):
                 continue
@@ -281,6 +391,14 @@ def casts(r, crate):
                     continue
                 n += 1
                 detail = "%s->%s" % pair
+                if ck.startswith("IntToInt"):
+                    if defs is None:
+                        defs, idom = common.defs_of(fn), cfg.dominators(fn)
+                    g = _guarded_cast(fn, bi, rv, defs, idom)
+                    if g:
+                        r.ok("%s | %s keeps the value: the operand is bounded on every path to the cast (%s)" % (fn.path, detail, g),
+                             fn, s.get("line"))
+                        continue
 
                 def on_ok(ent, moved, fn=fn, s=s, detail=detail):
                     r.ok("%s | %s (reviewed%s: %s)" % (fn.path, detail, " for %s, moved" % moved if moved else "", ent["reason"]),
